@@ -715,19 +715,24 @@ func runC05Proc(c *fw.Case) {
 	// then strips its set-id bits, and chmod(2) cannot set the set-gid bit on an entry of a group the process is not in
 	noFsetid := !noPerm && c.ChanceAdded(1, 4, "cli.no-cap-fsetid")
 	if noFsetid {
-		c.Fault("process-without-CAP_FSETID")
 		exe, eerr := os.Executable()
 		if eerr != nil {
 			c.HarnessError("%v", eerr)
 			return
 		}
 		exit, _, stderr, err = runExeEnv(exe, []string{"VERIF_DROPCAP_SHIM=" + desyncBin()}, 120*time.Second, untarArgs...)
-		if exit == 3 && bytes.Contains(stderr, []byte("dropcap shim:")) {
-			c.HarnessError("%s", tailBytes(stderr, 200))
-			return
+		if err == nil && exit == 3 && bytes.Contains(stderr, []byte("dropcap shim:")) {
+			// this environment does not let the shim change its bounding set: the fault kind is not available here
+			// (visible as a probe in the evidence), the case runs without it
+			c.Probe("process-without-CAP_FSETID unavailable: " + strings.TrimSpace(string(tailBytes(stderr, 120))))
+			noFsetid = false
+			exit, _, stderr, err = runDesync(untarArgs...)
 		}
 	} else {
 		exit, _, stderr, err = runDesync(untarArgs...)
+	}
+	if noFsetid {
+		c.Fault("process-without-CAP_FSETID")
 	}
 	if errors.Is(err, errProcTimeout) {
 		c.Probe("procsim-timeout-case-dropped")
